@@ -320,7 +320,7 @@ def inject(scratch_dir, units):
         if not os.path.exists(path):
             raise extract.LostAnchor(f'module file {rel} missing')
         with open(path, 'a', encoding='utf-8') as f:
-            f.write(f"\n#[cfg(kani)]\n#[allow(unused, non_snake_case)]\nmod verif_{u['unit']} {{\n    use super::*;\n{u['body']}\n}}\n")
+            f.write(f"\n#[cfg(kani)]\n#[allow(unused, non_snake_case)]\npub(crate) mod verif_{u['unit']} {{\n    use super::*;\n{u['body']}\n}}\n")
     # crate-level feature gates are not needed (no loop contracts)
 
 
